@@ -69,9 +69,15 @@ Inductive action :=
 | ACreate (t : N) (b : content) (f : option nat)
     (* CREATE TABLE t.  f: 0 lock file cannot be made; 1 creating the file fails; 2 the AS SELECT
        query fails after the file was made *)
+| ARetryRead (t : N) (n : nat)
+    (* n failed attempts of TryCreateRLockFile in the retry loop of CreateControlFileContext: the
+       transient .lock file is made, creating the .rlock file fails (name too long, disk full ...),
+       the deferred Close removes the .lock file again; the loop goes on (the following ARead says
+       how it ends) *)
 | ACommit (ordc ordu ordi : list N) (f : option nat)
     (* COMMIT; the three lists give the (Go map) order in which created / updated / idle tables are
-       visited.  f = Some j: the j-th EncodeView is cancelled right after its Truncate *)
+       visited.  f = Some k: the writing phase fails after k of its calls (a failing Truncate or
+       Write, or cancellation noticed inside EncodeView) *)
 | ARollback (ord : list N)
 | AError     (* the statement fails while evaluating *)
 | AExit.     (* EXIT *)
@@ -94,6 +100,13 @@ Definition exec_read (s : pst) (t : N) (f : option nat) : pst * bool :=
     else
       let s2 := emit s1 (close_ops (p_fs s1) (rd_handler t true)) in   (* deferred Close(h) *)
       if fails f 2 then (s2, false) else (with_ro s2 (t :: p_ro s2), true).
+
+Definition rlock_retry (t : N) : list op := [OCreate (lockp t); OClose (lockp t); ORemove (lockp t)].
+Fixpoint repeat_ops (n : nat) (l : list op) : list op :=
+  match n with O => [] | S k => l ++ repeat_ops k l end.
+Definition exec_retry_read (s : pst) (t : N) (n : nat) : pst * bool :=
+  if exists_b (p_fs s) (lockp t) then (s, true)        (* LockExists: the attempt stops before making anything *)
+  else (emit s (repeat_ops n (rlock_retry t)), true).
 
 Definition mark (nb : option content) (h : handler) : handler :=
   match nb with
@@ -143,13 +156,6 @@ Definition body_of (c : list handler) (t : N) : content :=
   match find (fun h => N.eqb (h_tbl h) t) c with Some h => h_body h | None => [] end.
 Definition changes (c : list handler) (l : list N) : list tchange := map (fun t => mkT t (body_of c t)) l.
 
-Fixpoint firstn_blocks (j : nat) (blocks : list (list op)) : list op :=
-  match j, blocks with
-  | _, [] => []
-  | O, b :: _ => firstn 1 b
-  | S j', b :: r => b ++ firstn_blocks j' r
-  end.
-
 Definition exec_commit (g : cfg) (s : pst) (ordc ordu ordi : list N) (f : option nat) : pst * bool :=
   let c := p_cont s in
   let cr := changes c (sort_by ordc (created_tbls c)) in
@@ -157,8 +163,8 @@ Definition exec_commit (g : cfg) (s : pst) (ordc ordu ordi : list N) (f : option
   let idle := sort_by ordi (idle_tbls c) in
   let lb := c_linebreak g in
   let blocks := map (write_created lb) cr ++ map (write_updated lb) up in
-  let cancelled := match f with Some j => Nat.ltb j (length blocks) | None => false end in
-  if cancelled then (emit s (firstn_blocks (match f with Some j => j | None => O end) blocks), false)
+  let failed := match f with Some k => Nat.ltb k (length (concat blocks)) | None => false end in
+  if failed then (emit s (firstn (match f with Some k => k | None => O end) (concat blocks)), false)
   else
     let s1 := emit s (commit_ops (c_rename_over g) lb cr up idle) in
     (mkP (p_fs s1) (p_tr s1) [] []
@@ -189,6 +195,7 @@ Definition exec_action (g : cfg) (s : pst) (a : action) : pst * bool :=
   | ARead t f => exec_read s t f
   | AUpdate t nb f => exec_update s t nb f
   | ACreate t b f => exec_create s t b f
+  | ARetryRead t n => exec_retry_read s t n
   | ACommit oc ou oi f => exec_commit g s oc ou oi f
   | ARollback ord => (release s ord, true)
   | AError | AExit => (s, false)
@@ -208,7 +215,7 @@ Definition run_process (g : cfg) (s0 : fs) (prog : list action) (fin : action) (
   release s2 ord.
 
 Definition is_commit (a : action) : bool := match a with ACommit _ _ _ _ => true | _ => false end.
-Definition is_reading (a : action) : bool := match a with ARead _ _ | AError | AExit => true | _ => false end.
+Definition is_reading (a : action) : bool := match a with ARead _ _ | ARetryRead _ _ | AError | AExit => true | _ => false end.
 
 (* the property, decidable, on a directory found after the process ended: every control file is
    one that was there before the run started (a competing holder's) *)
